@@ -3,7 +3,8 @@
 // Scenarios are small scripts: per thread a string of ops on ONE queue
 //   U suspend   R resume   V activate   a async item   s sync item   z sleep 1 virtual ms
 //   x async an item whose body calls dispatch_suspend on the queue (suspend from an item)
-//   X barrier_async such an item (concurrent queue)
+//   X barrier_async such an item (concurrent queue)   Y dispatch_sync such an item
+//   w wait (scheduler-level) until an item has executed its inner suspend
 // prologue: P<n> = n nested suspends (and, after the threads, n resumes) issued by the main
 // thread outside the explored window; kind: S serial, C concurrent, I serial initially inactive.
 //
@@ -27,6 +28,8 @@ static const scen SC[] = {
 	{ "item suspends its own serial queue; racing submitter; later resume", 'S', 0, { "xzzR", "aa", 0 } },
 	{ "item suspends; second item already queued", 'S', 0, { "xazzR", 0, 0 } },
 	{ "barrier item suspends its concurrent queue; racing submitters", 'C', 0, { "XzzR", "aa", 0 } },
+	{ "sync item (lock received by hand-off) suspends its queue; the last resume races its completion; a sync caller and an async item wait behind", 'S', 0, { "UazRwR", "Y", "s" } },
+	{ "sync item suspends its queue; resume races its completion; async item behind", 'S', 0, { "awR", "Y", 0 } },
 	// (d) blocked dispatch_sync released by the last resume
 	{ "sync blocked on a suspended queue, released by resume", 'S', 0, { "UzR", "s", 0 } },
 	{ "sync + async blocked at depth 2", 'S', 0, { "UUzRzR", "s", "a" } },
@@ -53,12 +56,14 @@ static const scen *g_sc;
 static int g_ended, g_expected;
 
 static void plain_item(void *ctx) { item_body((int)(intptr_t)ctx); g_ended++; }
+static int g_inner_suspended;
 static void susp_item(void *ctx)
 {
 	int id = (int)(intptr_t)ctx;
 	vx_ev(EV_START, id, 0);
 	dispatch_suspend(g_q);
 	vx_ev(EV_SUSP_RET_INNER, id, 0);
+	g_inner_suspended = 1;
 	vx_point();
 	vx_ev(EV_END, id, 0);
 	g_ended++;
@@ -79,6 +84,8 @@ static void do_script(int t)
 		case 's': vx_ev(EV_CALL, id, 0); dispatch_sync_f(g_q, ctx, plain_item); vx_ev(EV_RET, id, 0); break;
 		case 'x': vx_ev(EV_CALL, id, 0); dispatch_async_f(g_q, ctx, susp_item); vx_ev(EV_RET, id, 0); break;
 		case 'X': vx_ev(EV_CALL, id, 0); dispatch_barrier_async_f(g_q, ctx, susp_item); vx_ev(EV_RET, id, 0); break;
+		case 'Y': vx_ev(EV_CALL, id, 0); dispatch_sync_f(g_q, ctx, susp_item); vx_ev(EV_RET, id, 0); break;
+		case 'w': { int *a[2] = { &g_inner_suspended, (int *)(intptr_t)1 }; vx_wait_until(pred_int_ge, a); break; }
 		case 'z': vx_sleep_ns(1 * MS); break;
 		default: vx_fail("bad op");
 		}
@@ -100,7 +107,7 @@ static void wait_ended(int n) { int *a[2] = { &g_ended, (int *)(intptr_t)n }; vx
 
 static void run(int v)
 {
-	g_ended = 0;
+	g_ended = 0; g_inner_suspended = 0;
 	vx_set_horizon(12ull * 1000000000ull);
 	if (v >= NSC) {
 		// sequential histories: default schedule only (no focus window needed, but keep one so
@@ -129,7 +136,7 @@ static void run(int v)
 	}
 	g_sc = &SC[v];
 	g_expected = 0;
-	for (int t = 0; t < 3; t++) for (const char *s = g_sc->thr[t]; s && *s; s++) if (strchr("asxX", *s)) g_expected++;
+	for (int t = 0; t < 3; t++) for (const char *s = g_sc->thr[t]; s && *s; s++) if (strchr("asxXY", *s)) g_expected++;
 	if (g_sc->kind == 'I') {
 		g_q = dispatch_queue_create("vx.susp", dispatch_queue_attr_make_initially_inactive(DISPATCH_QUEUE_SERIAL));
 		// warm the pool through another queue
@@ -173,7 +180,7 @@ static int check(int v, const vx_log *l, char *msg, size_t len)
 		}
 	}
 	int want = v >= NSC ? 1 : 0;
-	if (v < NSC) for (int t = 0; t < 3; t++) for (const char *s = SC[v].thr[t]; s && *s; s++) if (strchr("asxX", *s)) want++;
+	if (v < NSC) for (int t = 0; t < 3; t++) for (const char *s = SC[v].thr[t]; s && *s; s++) if (strchr("asxXY", *s)) want++;
 	int ends = 0;
 	for (uint32_t i = 0; i < l->n; i++) if (l->ev[i].kind == EV_END) ends++;
 	if (starts != want || ends != want) FAILF(msg, len, "%d items were submitted but %d started and %d finished after the last resume", want, starts, ends);
